@@ -35,6 +35,7 @@ def handleLine (line : String) : String :=
       | "xpolb" => handleXpolBuild args
       | "writer" => handleWriter args
       | "cuts" => handleCuts args
+      | "stream" => handleCuts args
       | "res" => handleRes args
       | "crash" => handleCrash args
       | "race" => "races=-"   -- C11_table: every shared location of the supported use is disciplined
